@@ -273,7 +273,8 @@ Theorem C16_settings_reach_every_layer : forall resub pathspec_match world_of en
         (document_bytes (flags_of obj) (trigger_of obj)
                         (resub (opt_text obj k_strip_fn)) (resub (opt_text obj k_strip_mac))
                         (resub (opt_text obj k_strip_mem)) (headers_of obj))
-        (excl_with_output (pathspec_match (patterns_of obj) input) (pw_out_in_input (world_of input)))
+        (excl_with_output_links (pathspec_match (patterns_of obj) input) (pw_out_in_input (world_of input))
+                                (follow_of obj) (pw_links (world_of input)))
         (pw_base (world_of input)) (pw_kind (world_of input))) (p_positional p)))
   /\ ws_prefix (wsettings_of obj) = found_opt_str (resolve stack k_prefix)
   /\ ws_recursive (wsettings_of obj) = found_bool (resolve stack k_recursive)
